@@ -21,7 +21,7 @@ Oracle (reference = the sender's own list of messages and their byte slices):
                          (never merged, dropped, duplicated or corrupted)
   after the last read    #delivered == #sent, reassembly buffer empty, connection still open
 """
-import bisect, itertools, multiprocessing, os, resource, signal, struct, sys, traceback
+import bisect, gc, itertools, multiprocessing, os, resource, signal, struct, sys, traceback
 from mc.engine import pmap
 from mc.report import Report
 from mc.refs import ofwire as W
@@ -32,11 +32,21 @@ PID = "C02"
 
 class HarnessError (Exception): pass
 
-class CaseTimeout (Exception):
+class CaseTimeout (BaseException):
   """Raised by the CPU-time watchdog inside a read call that does not return."""
 
-CASE_CPU_LIMIT = 20.0       # seconds of *CPU* time (ITIMER_VIRTUAL) for one case; a normal case needs < 0.1 s
+class Runaway (BaseException):
+  """One read call keeps delivering far more messages than were sent (seen with broken framing: a zero-length
+  'message' decoded from garbage is delivered forever).  Raised to get out of the receiver's loop."""
+
+class _Bomb (object):
+  def __getitem__ (self, i): raise Runaway()
+  def __len__ (self): return 256
+
+CASE_CPU_LIMIT = 10.0       # seconds of *CPU* time (ITIMER_VIRTUAL) for one case; a normal case needs < 0.1 s
 WORKER_AS_LIMIT = 3 << 30   # address-space cap of a pool worker: runaway allocation becomes a MemoryError
+
+_FROZEN = False
 
 def _on_vtalrm (signum, frame):
   raise CaseTimeout("no return after %.0f s of CPU time" % CASE_CPU_LIMIT)
@@ -44,7 +54,13 @@ def _on_vtalrm (signum, frame):
 def _guards ():
   """Keep a receiver that loops or allocates without bound (seen with broken framing, where the bytes that follow
   are decoded as garbage) from hanging or starving the machine: it becomes an exception escaping read()."""
+  global _FROZEN
   signal.signal(signal.SIGVTALRM, _on_vtalrm)
+  if not _FROZEN:
+    # Every fresh receiver is a bundle of reference cycles (nexus <-> listeners <-> connection).  With the ~3e5
+    # long-lived objects of the imported POX modules in the oldest generation, CPython postpones full collections
+    # and dead receivers pile up (GBs).  Freezing the imported world keeps full collections frequent and cheap.
+    gc.collect(); gc.freeze(); _FROZEN = True
   if multiprocessing.current_process().name != "MainProcess":
     soft, hard = resource.getrlimit(resource.RLIMIT_AS)
     if soft == resource.RLIM_INFINITY or soft > WORKER_AS_LIMIT:
@@ -110,7 +126,15 @@ def build (side, seq):
 class Recorder (object):
   def __init__ (self):
     self.log = []
+    self.limit = 64
+    self.runaway = False
   def __call__ (self, con, msg):
+    if len(self.log) >= self.limit:
+      # of_01.Connection.read swallows whatever a handler raises (bare except) and carries on, so the way out of
+      # its loop is its next unpacker lookup, which is not guarded; OFConnection.read lets a BaseException through.
+      self.runaway = True
+      con.unpackers = _Bomb()
+      raise Runaway()
     try: packed = msg.pack()
     except Exception as e: packed = "pack raised %s: %s" % (type(e).__name__, e)
     self.log.append((getattr(msg, "header_type", None), getattr(msg, "xid", None), packed, type(msg).__name__))
@@ -225,7 +249,7 @@ ENDS = dict(controller=CtrlEnd, switch=SwitchEnd)
 def reusable (end):
   """A receiver may serve another case iff it is back in the state a fresh one is in, as far as the read path can
   see: reassembly buffer empty, nothing queued on the socket, open, recorder still installed.  The log is cleared."""
-  if end is None or end.residual() or end.sock.rx or end.notes or not end.open(): return False
+  if end is None or end.residual() or end.sock.rx or end.notes or end.rec.runaway or not end.open(): return False
   if end.side == "controller":
     if any(h is not end.rec for h in end.con.handlers): return False
   elif end.conn.on_message_received is not end.rec: return False
@@ -284,6 +308,7 @@ def run_case (side, msgs, kind, arg, src="/repo", trace=None, end=None):
       return bad("handshake", str(e), "unsegmented hello / features reply / barrier reply handed to read() one at a time did "
                  "not complete the handshake (%s)" % e), profile, nreads, states
   log = end.log
+  end.rec.limit = n + 8
   queued = 0
   for seg in segments(stream, kind, arg):
     it = end.feed(seg)
@@ -299,7 +324,10 @@ def run_case (side, msgs, kind, arg, src="/repo", trace=None, end=None):
         break
       except HarnessError:
         raise
-      except Exception as e:
+      except Runaway:
+        return bad("runaway-delivery", _pclass(fed, ends), "a single read call delivered more than %d messages, %d were sent "
+                   "(stopped by the harness)" % (end.rec.limit, n)), profile, nreads, states
+      except (Exception, CaseTimeout) as e:
         et, ev, tb = sys.exc_info()
         site = _site(tb, src)
         del tb
